@@ -153,12 +153,14 @@ class Model:
           op.pop(k, None)
       self.operative.setdefault(('/'.join(scope), full), {}).update(op)
     missing = []
+    filled = set()
     new_args = list(pos)
     for i, n in req_pos:
       if n not in b:
         missing.append(n)
       else:
         new_args[i] = b.pop(n)
+        filled.add(n)
     for p in spec['params']:
       if p.get('d') == REQ:
         n = p['n']
@@ -170,11 +172,12 @@ class Model:
         missing.append(n)
       else:
         kw.pop(n)
+        filled.add(n)
     if missing:
       ordered = [n for n in names if n in missing]
       ordered += [n for n in missing if n not in ordered]
       return {'status': 'error', 'exc': 'RuntimeError', 'missing': ordered}
-    from_gin = set(b) - set(kw)
+    from_gin = (set(b) - set(kw)) | filled
     b.update(kw)
     # Python-level binding of (new_args, b) to the signature.
     named = {}
